@@ -6,7 +6,7 @@
 //	    (ProcessWrite + WrapperUpdateOperationCallback) or on a fresh real RF=1 leader controller
 //	    (WriteBlock / CreateSession / Read / List / RangeScan, restart = close + re-create + NewTerm +
 //	    BecomeLeader, which replays the WAL) and every step is compared.
-//	dbcheck drive -seed S -n N -ops K -mode db|leader -profile mix|idx|seq -out trace.ndjson
+//	dbcheck drive -seed S -n N -ops K -mode db|leader -profile mix|idx|seq|seqwide|hostile -out trace.ndjson
 //	    random request streams over a bigger key space on the real code, recorded in the same shape for
 //	    validation by DbTrace.tla.
 //	dbcheck rerun -in replay.json -out trace.ndjson
@@ -117,6 +117,26 @@ func replayOne(beh []m.Step, mode string, scope map[string]bool) (o outcome) {
 			for k, v := range scope {
 				sc[k] = v && k != "probes"
 			}
+		}
+		if want.Ovf {
+			// finding seqOverflow: a sequence put whose exact result is not a uint64.  The specification records
+			// what the code does today (the sum wraps modulo 2^64).  Same outcome: the finding is still there;
+			// any other treatment of the overflow is recorded, not judged, and ends the behaviour.
+			fd := finding{Req: "overflow: " + want.Req.String(), Count: 1}
+			if d := m.Diff(want, &got, sc); d != "" {
+				fd.Err = "not the wrapping arithmetic any more: " + d
+				o.findings = append(o.findings, fd)
+				return o
+			}
+			ks := []string{}
+			for _, r := range got.Res.Puts {
+				if len(r.Key) > 0 {
+					ks = append(ks, r.Key.S())
+				}
+			}
+			fd.Err = "wraps modulo 2^64: generated " + strings.Join(ks, " ")
+			o.findings = append(o.findings, fd)
+			continue
 		}
 		if d := m.Diff(want, &got, sc); d != "" {
 			// read the same state a second time: a read that does not repeat is reported as such
@@ -275,12 +295,41 @@ type gen struct {
 	sess    []int // live sessions
 	recs    map[string]m.Rec
 	lastVer int
+	// sequence deltas (profile seqwide): 0 small only, 1 one jump next to a boundary per prefix and small steps, 2 anything
+	wide   int
+	jumped map[string]bool
 }
 
 var keyPool = []string{"a", "b", "c", "d", "a/a", "a/b", "a/c", "b/a", "b/c", "a/b/c", "a/b/d", "c/a/b", "a.", "a-", "a0", "a/b.", "a/b0", "B", "_", "~/x", "", "z/z/z"}
 var boundPool = []string{"", "a", "a/", "a//", "a/b", "a/b/", "a0", "b", "b/", "c", "c/a/", "z", "z/", "~", "~/", "B", "_", "__", "a.", "a/~", "b/~", "zzz/"}
 
 func (g *gen) pick(ss []string) string { return ss[g.rng.Intn(len(ss))] }
+
+// sequence numbers are uint64: the interesting places are 2^31, 2^32, 2^63 and 2^64-1
+var boundaries = []uint64{1 << 31, 1 << 32, 1 << 62, 1 << 63, ^uint64(0)}
+
+// a number a few small steps below (or just above) one of the boundaries
+func (g *gen) nearBoundary() uint64 {
+	b := boundaries[g.rng.Intn(len(boundaries))]
+	k := uint64(g.rng.Intn(12))
+	if b != ^uint64(0) && g.rng.Intn(3) == 0 {
+		return b + k
+	}
+	return b - k
+}
+
+func (g *gen) wideDelta() uint64 {
+	switch g.rng.Intn(4) {
+	case 0:
+		return g.nearBoundary()
+	case 1:
+		return g.rng.Uint64()
+	case 2:
+		return g.rng.Uint64() >> uint(1+g.rng.Intn(40))
+	default:
+		return []uint64{1 << 31, 1<<63 - 1, 1 << 63, 1<<63 + 1, ^uint64(0) - 1, ^uint64(0)}[g.rng.Intn(6)]
+	}
+}
 
 func (g *gen) exp(key string) int {
 	r, live := g.recs[key]
@@ -330,13 +379,26 @@ func (g *gen) put() m.Put {
 		pfxs := []string{"s", "t/u", "q"}
 		pfx := g.pick(pfxs)
 		p.Key, p.Pkey, p.Exp = m.K(pfx), true, m.NoExp
+		ds := []uint64{}
 		for i := 0; i < seqPrefixes[pfx]; i++ {
-			d := g.rng.Intn(4)
+			d := uint64(g.rng.Intn(4))
 			if i == 0 {
 				d++
 			}
-			p.Deltas = append(p.Deltas, d)
+			// deltas over the whole uint64 range (OxiaDb.tla: Delta20 / AddU64)
+			switch {
+			case g.wide == 1 && !g.jumped[pfx] && g.rng.Intn(2) == 0:
+				// one jump close to a boundary, then small steps across it
+				d = g.nearBoundary()
+			case g.wide == 2 && g.rng.Intn(3) == 0:
+				d = g.wideDelta()
+			}
+			ds = append(ds, d)
 		}
+		if g.wide == 1 {
+			g.jumped[pfx] = true
+		}
+		p.SetDeltas(ds)
 		if g.rng.Intn(12) == 0 {
 			p.Exp = g.rng.Intn(3) // not allowed with deltas: per-operation status
 		}
@@ -475,7 +537,7 @@ func cmdDrive(args []string) int {
 	n := fs.Int("n", 20, "traces")
 	ops := fs.Int("ops", 25, "requests per trace")
 	mode := fs.String("mode", "db", "db | leader")
-	profile := fs.String("profile", "mix", "mix | idx | seq")
+	profile := fs.String("profile", "mix", "mix | idx | seq | seqwide | hostile")
 	out := fs.String("out", "trace.ndjson", "")
 	_ = fs.Parse(args)
 	m.Quiet()
@@ -499,7 +561,11 @@ func cmdDrive(args []string) int {
 			fmt.Fprintln(os.Stderr, err)
 			return 2
 		}
-		g := &gen{rng: rng, profile: *profile, recs: map[string]m.Rec{}, lastVer: -1}
+		g := &gen{rng: rng, profile: *profile, recs: map[string]m.Rec{}, lastVer: -1, jumped: map[string]bool{}}
+		if *profile == "seqwide" {
+			// the sequence-heavy stream of "seq" with deltas over the whole uint64 range
+			g.profile, g.wide = "seq", 1+t%2
+		}
 		// a trace works on a random subset of the pools
 		for _, k := range keyPool {
 			if rng.Intn(3) > 0 {
@@ -516,7 +582,7 @@ func cmdDrive(args []string) int {
 			switch x := rng.Intn(40); {
 			case x == 0 && k > 0:
 				st = m.Step{A: "Restart"}
-			case x < 4 && *profile != "seq" && (*profile != "hostile" || x < 2):
+			case x < 4 && g.profile != "seq" && (*profile != "hostile" || x < 2):
 				// create a session: the record "__oxia/session/<offset>"
 				id := e.NextOffset()
 				st.Req = m.Req{Puts: []m.Put{{Key: m.K(fmt.Sprintf("%s%016x", m.SessPrefix, id)), Val: -1, Exp: m.NoExp, Sess: m.NoSess}}}
